@@ -331,10 +331,45 @@ def equivalent(a, b):
     a2, b2 = atomize(a, table), atomize(b, table)
     vs = sorted(ast_names(a2) | ast_names(b2))
     if len(vs) > 16:
-        return "too-many-variables"
+        return _sampled_equivalent(lambda env: ev(a2, env), lambda env: ev(b2, env), vs)
     for vals in itertools.product((False, True), repeat=len(vs)):
         env = dict(zip(vs, vals))
         if ev(a2, env) != ev(b2, env):
+            return False
+    return True
+
+
+SAMPLED = [0]   # number of equivalence judgements that had to be sampled (more than 16 variables)
+
+
+def _sampled_equivalent(fa, fb, vs):
+    """More than 16 variables: a complete truth table is out of reach.  Refutation by structured and random
+    assignments (all true/false, every single flip of those, every pair flip for up to 40 variables, and
+    biased random assignments); a difference found is a sound refutation, none found is 'held on the sample'."""
+    import random
+    SAMPLED[0] += 1
+    r = random.Random(len(vs))
+    n = len(vs)
+    cands = []
+    for basev in (True, False):
+        base = [basev] * n
+        cands.append(base)
+        for i in range(n):
+            c = list(base)
+            c[i] = not basev
+            cands.append(c)
+        if n <= 40:
+            for i in range(n):
+                for j in range(i + 1, n):
+                    c = list(base)
+                    c[i] = c[j] = not basev
+                    cands.append(c)
+    for p in (0.1, 0.3, 0.5, 0.7, 0.9):
+        for _ in range(300):
+            cands.append([r.random() < p for _ in range(n)])
+    for vals in cands:
+        env = dict(zip(vs, vals))
+        if fa(env) != fb(env):
             return False
     return True
 
@@ -351,7 +386,7 @@ def equivalent_conj(a, parts):
         vs |= ast_names(p)
     vs = sorted(vs)
     if len(vs) > 16:
-        return "too-many-variables"
+        return _sampled_equivalent(lambda env: ev(a2, env), lambda env: all(ev(p, env) for p in p2), vs)
     for vals in itertools.product((False, True), repeat=len(vs)):
         env = dict(zip(vs, vals))
         if ev(a2, env) != all(ev(p, env) for p in p2):
